@@ -95,6 +95,8 @@ class Recorder:
         for key in ("a", "b") + (("s",) if kind not in ("New", "NewShared", "NewDefault", "MH") else ()):
             if key in op and op[key] not in self.objs:
                 return None
+        if any(s not in self.objs for s in op.get("srcs", [])):
+            return None
         out, exc, extra = "ok", "", {}
         O = self.objs
         # ---- prepare: concretise the arguments (harness code: errors here are machinery errors)
@@ -160,6 +162,12 @@ class Recorder:
                 O[op["t"]] = (O[op["a"]] * arg["f"]) if op.get("side", "l") == "l" else (arg["f"] * O[op["a"]])
             elif kind == "Zero":
                 O[op["t"]] = O[op["a"]].zero()
+            elif kind == "Histogram":
+                O[op["t"]] = O[op["a"]].histogram()
+            elif kind == "StackBuild":
+                O[op["t"]] = hg.Stack.build(*[O[s] for s in op["srcs"]])
+            elif kind == "FractionBuild":
+                O[op["t"]] = hg.Fraction.build(O[op["a"]], O[op["b"]])
             elif kind == "Copy":
                 O[op["t"]] = O[op["a"]].copy()
             elif kind == "Pickle":
